@@ -1,9 +1,9 @@
 CONSTANTS
-  NZooms = 1
+  NZooms = 2
   IsBed = FALSE
   HeaderFirst = FALSE
-  Stale = FALSE
+  Stale = TRUE
   SkipBlank = FALSE
 SPECIFICATION Spec
-INVARIANTS PrefixSafe Complete
+INVARIANTS PrefixSafe StaleSafe Complete
 CHECK_DEADLOCK FALSE
